@@ -10,14 +10,15 @@ def new_comp():
     return HighJumpCompetition()
 
 
-def apply(c, call):
-    """Apply call to competition c.  Returns ('ok',) or ('refused', exception type name, message)."""
+def apply(c, call, float_heights=False):
+    """Apply call to competition c.  Returns ('ok',) or ('refused', exception type name, message).  With
+    float_heights the bar height (an exact Decimal in the harness) is handed over as the nearest float."""
     op, arg = call
     try:
         if op == 'add':
             c.add_jumper(bib=arg)
         elif op == 'bar':
-            c.set_bar_height(arg)
+            c.set_bar_height(float(arg) if float_heights else arg)
         else:
             getattr(c, op)(arg)
         return ('ok',)
